@@ -7,6 +7,7 @@ import (
 	"math/big"
 	"strconv"
 	"strings"
+	"time"
 
 	"golang.org/x/tools/go/ssa"
 )
@@ -893,4 +894,21 @@ func (m *Machine) atomicIntrinsic(fn *ssa.Function) intrinsicFn {
 	return nil
 }
 
-func registerMoreIntrinsics(m *Machine) {}
+func registerMoreIntrinsics(m *Machine) {
+	I := m.intrinsic
+	tt := m.TT
+	// time.Date on concrete arguments (location treated as UTC): Time{wall: nsec, ext: seconds since year 1, loc: nil}
+	I["time.Date"] = func(m *Machine, fr *frame, a []Value, c *ssa.CallCommon) Value {
+		var v [7]int
+		for i := 0; i < 7; i++ {
+			n, ok := m.concreteInt(a[i])
+			if !ok {
+				panic(m.unsupported("time.Date with symbolic argument"))
+			}
+			v[i] = int(n)
+		}
+		t := time.Date(v[0], time.Month(v[1]), v[2], v[3], v[4], v[5], v[6], time.UTC)
+		const unixToInternal = 62135596800
+		return StructV{tt.BVConst(64, uint64(t.Nanosecond())), tt.BVConst(64, uint64(t.Unix()+unixToInternal)), PtrV{}}
+	}
+}
